@@ -108,6 +108,146 @@ pub fn large_cfgs() -> Vec<Cfg> {
     v
 }
 
+/// "Relational" configurations: cases defined by a *relation between fields* or by special content,
+/// which uniform sampling of each field on its own essentially never produces (two SSRCs that
+/// collide, SLI runs that are contiguous, blank strings, sequence numbers at the wrap, sizes that
+/// are a multiple of 256, nested compounds with several members, ...). All are valid unless noted.
+pub fn relational_cfgs() -> Vec<Cfg> {
+    let rb = |ssrc: u32, k: u32| Rb { ssrc, fraction: k as u8, cumulative: 0x00ab_cdef ^ k, ext_seq: 0x1111_0000 + k, jitter: 7 + k, lsr: 0x2222_0000 + k, dlsr: 0x3333_0000 + k };
+    let it = |t: u8, p: &[u8], v: &str| Item { type_: t, prefix: p.to_vec(), value: v.to_string() };
+    let mut v = vec![];
+    // ---- SR / RR: a block about the sender itself, identical blocks, LSR 0 with DLSR != 0, all-zero and all-ones blocks
+    for sender in [0u32, 1, 0xdead_beef, u32::MAX] {
+        for pos in 0..3usize {
+            let mut blocks: Vec<Rb> = (0..3u32).map(|k| rb(0x0101_0100 + k, k)).collect();
+            blocks[pos].ssrc = sender;
+            v.push(Cfg::Rr { ssrc: sender, blocks: blocks.clone(), padding: 0 });
+            v.push(Cfg::Sr { ssrc: sender, ntp: 0x0102_0304_0506_0708, rtp: sender, pc: sender, oc: sender, blocks, padding: 4 });
+        }
+        v.push(Cfg::Rr { ssrc: sender, blocks: vec![rb(sender, 1)], padding: 0 });
+        v.push(Cfg::Rr { ssrc: sender, blocks: vec![rb(7, 1), rb(7, 1), rb(7, 1)], padding: 0 });
+    }
+    let mut z = rb(5, 0);
+    z.lsr = 0;
+    v.push(Cfg::Rr { ssrc: 9, blocks: vec![z.clone(), Rb { dlsr: 0, ..z.clone() }, Rb { lsr: 1, dlsr: 0, ..z.clone() }], padding: 0 });
+    v.push(Cfg::Sr { ssrc: 9, ntp: 0, rtp: 0, pc: 0, oc: 0, blocks: vec![Rb { ssrc: 0, fraction: 0, cumulative: 0, ext_seq: 0, jitter: 0, lsr: 0, dlsr: 0 }], padding: 0 });
+    v.push(Cfg::Sr { ssrc: u32::MAX, ntp: u64::MAX, rtp: u32::MAX, pc: u32::MAX, oc: u32::MAX, blocks: vec![Rb { ssrc: u32::MAX, fraction: 0xff, cumulative: 0xff_ffff, ext_seq: u32::MAX, jitter: u32::MAX, lsr: u32::MAX, dlsr: u32::MAX }], padding: 252 });
+    // ---- BYE: blank / control-character reasons, reasons that look like binary structure, duplicate and zero sources
+    for r in [" ", "  ", "\t", "\n", " \t\r\n", "\u{a0}", "\0", "\0\0\0", " x", "x ", "\u{1}\u{2}", "\u{7f}", "    ", "\u{3000}"] {
+        for ns in [0usize, 1, 2] {
+            for p in [0u8, 4] {
+                v.push(Cfg::Bye { sources: (0..ns as u32).map(|k| k * 0x0101_0101).collect(), reason: r.to_string(), padding: p });
+            }
+        }
+    }
+    v.push(Cfg::Bye { sources: vec![], reason: " ".repeat(255), padding: 0 });
+    v.push(Cfg::Bye { sources: vec![3, 3, 3, 0, 0], reason: "\u{3}\u{0}\u{0}\u{0}".to_string(), padding: 0 });
+    // ---- APP: blank names, payloads that look like headers / padding trailers
+    for name in [" ", "  ", "   ", "    ", "a ", " a", "\t\t\t\t", "a\0 "] {
+        v.push(Cfg::App { ssrc: 1, subtype: 1, name: name.to_string(), data: vec![], padding: 0 });
+        v.push(Cfg::App { ssrc: 1, subtype: 1, name: name.to_string(), data: vec![0x80, 204, 0, 1, 0, 0, 0, 4], padding: 4 });
+    }
+    v.push(Cfg::App { ssrc: 0, subtype: 0, name: "\0\0\0\0".to_string(), data: vec![0; 8], padding: 0 });
+    v.push(Cfg::App { ssrc: 1, subtype: 1, name: "name".into(), data: vec![0, 0, 0, 4], padding: 0 });
+    v.push(Cfg::App { ssrc: 1, subtype: 1, name: "name".into(), data: vec![0xff; 256 - 12], padding: 8 });
+    // ---- SDES: item-less chunks (also SSRC 0, also trailing), blank values, values full of NULs, duplicate items,
+    //      values that look like item headers, chunk sizes of every residue next to an SSRC with leading zeros
+    for tail_ssrc in [0u32, 1, 0x0100, 0x0001_0000, 0x0100_0000] {
+        for lead in [vec![], vec![it(1, &[], "abc")], vec![it(1, &[], "ab")], vec![it(2, &[], "a")], vec![it(3, &[], "")]] {
+            for pad in [0u8, 4, 8] {
+                v.push(Cfg::Sdes { chunks: vec![Chunk { ssrc: 0x1122_3344, items: lead.clone() }, Chunk { ssrc: tail_ssrc, items: vec![] }], padding: pad });
+                v.push(Cfg::Sdes { chunks: vec![Chunk { ssrc: 0x1122_3344, items: lead.clone() }, Chunk { ssrc: tail_ssrc, items: vec![] }, Chunk { ssrc: tail_ssrc, items: vec![] }], padding: pad });
+                v.push(Cfg::Sdes { chunks: vec![Chunk { ssrc: tail_ssrc, items: vec![] }, Chunk { ssrc: 0x1122_3344, items: lead.clone() }], padding: pad });
+            }
+        }
+    }
+    for val in [" ", "   ", "\t", "\0", "\0\0\0\0\0", "\u{1}\u{3}abc", "\u{8}\u{2}\u{0}x"] {
+        v.push(Cfg::Sdes { chunks: vec![Chunk { ssrc: 1, items: vec![it(1, &[], val), it(1, &[], val), it(8, val.as_bytes(), val)] }, Chunk { ssrc: 0, items: vec![it(2, &[], val)] }], padding: 0 });
+    }
+    // a non-PRIV item that carries a (documented to be ignored) prefix
+    v.push(Cfg::Sdes { chunks: vec![Chunk { ssrc: 1, items: vec![it(1, b"pfx", "cname"), it(2, b"\0", "")] }], padding: 4 });
+    // PRIV items at the edges of the (prefix, value) triangle
+    for (p, l) in [(0usize, 0usize), (0, 254), (254, 0), (127, 127), (1, 253), (253, 1), (253, 0), (0, 253)] {
+        v.push(Cfg::Sdes { chunks: vec![Chunk { ssrc: 1, items: vec![Item { type_: 8, prefix: vec![b'p'; p], value: "v".repeat(l) }] }, Chunk { ssrc: 2, items: vec![it(1, &[], "x")] }], padding: 0 });
+    }
+    // ---- SLI: contiguous runs (same picture), with and without zero counts, duplicates, reversed, 13-bit overflow of the sum
+    let sli = |l: Vec<(u16, u16, u8)>, p: u8| Cfg::Fb { kind: FbKind::Payload, sender: 1, media: 2, fci: Fci::Sli(l), padding: p };
+    v.push(sli(vec![(100, 20, 7), (120, 30, 7)], 0));
+    v.push(sli(vec![(0x0123, 0x0011, 0x2a), (0x0134, 0x0005, 0x2a)], 4));
+    v.push(sli(vec![(1200, 345, 17), (1545, 78, 17), (1623, 1, 17)], 0));
+    v.push(sli(vec![(120, 30, 7), (100, 20, 7)], 0));
+    v.push(sli(vec![(100, 20, 7), (120, 30, 8)], 0));
+    v.push(sli(vec![(100, 20, 7), (121, 30, 7)], 0));
+    v.push(sli(vec![(100, 0, 7), (100, 30, 7)], 0));
+    v.push(sli(vec![(100, 20, 7), (120, 0, 7)], 0));
+    v.push(sli(vec![(0, 0x1000, 1), (0x1000, 0x0fff, 1)], 0));
+    v.push(sli(vec![(0, 0x1000, 1), (0x1000, 0x1000, 1)], 0));
+    v.push(sli(vec![(5, 5, 5), (5, 5, 5), (5, 5, 5)], 0));
+    v.push(sli(vec![(0, 0, 0), (0, 0, 0)], 0));
+    v.push(sli(vec![(0x1fff, 0x1fff, 0x3f), (0x1fff, 0x1fff, 0x3f)], 252));
+    v.push(sli((0..64).map(|i| (i * 4, 4, 9)).collect(), 4)); // 64 contiguous entries = 256 bytes of FCI
+    // ---- FIR: SSRCs that differ in one byte, equal sequence numbers, the zero SSRC, 32 / 64 entries (256 / 512 bytes)
+    let fir = |l: Vec<(u32, u8)>, p: u8| Cfg::Fb { kind: FbKind::Payload, sender: 1, media: 2, fci: Fci::Fir(l), padding: p };
+    v.push(fir(vec![(0, 0), (1, 0), (0x0100, 0), (0x0001_0000, 0), (0x0100_0000, 0)], 0));
+    v.push(fir(vec![(7, 1), (7, 2), (7, 3)], 0)); // re-added SSRC: the last sequence wins
+    v.push(fir(vec![(7, 1), (8, 1), (7, 1)], 4));
+    v.push(fir((0..32).map(|i| (i, i as u8)).collect(), 4));
+    v.push(fir((0..64).map(|i| (i << 8, 0xff)).collect(), 252));
+    // ---- NACK: numbers at the top of the 16-bit space, across the wrap, window edges, 64 / 128 words with padding
+    let nack = |l: Vec<u16>, p: u8| Cfg::Fb { kind: FbKind::Transport, sender: 1, media: 2, fci: Fci::Nack(l), padding: p };
+    v.push(nack(vec![0xfff8, 0xfffb], 0));
+    v.push(nack(vec![0xfff0, 0xffff], 0));
+    v.push(nack(vec![0xffef, 0xffff], 0));
+    v.push(nack(vec![0xffee, 0xffff], 0));
+    v.push(nack(vec![0xffff, 0], 0));
+    v.push(nack(vec![0xffff, 0, 1, 16, 17], 4));
+    v.push(nack((0xfff0..=0xffffu16).collect(), 0));
+    v.push(nack((0xfff0..=0xffffu16).chain(0..=16).collect(), 0));
+    v.push(nack(vec![65530, 65531, 65535], 0));
+    v.push(nack(vec![0, 16, 17, 33, 34, 50], 0));
+    v.push(nack(vec![0, 100, 101], 0));
+    v.push(nack(vec![0, 100, 200, 201, 217, 218], 0));
+    v.push(nack((0..19).collect(), 0));
+    v.push(nack((0..64u16).map(|i| i * 17).collect(), 4)); // 64 words = 256 bytes of FCI
+    v.push(nack((0..128u16).map(|i| i * 20).collect(), 252));
+    v.push(nack(vec![5, 5, 5, 6, 6], 0)); // re-added numbers
+    // ---- RPSI: every ignored-bit count on odd / even lengths, 254- and 510-byte strings (256 / 512 bytes of FCI) with padding
+    for len in [1usize, 2, 3, 4, 5] {
+        for ov in [0u8, 1, 7, 8] {
+            v.push(Cfg::Fb { kind: FbKind::Payload, sender: 1, media: 2, fci: Fci::Rpsi { pt: 127, bits: vec![0xff; len], overrun: ov }, padding: if len % 2 == 0 { 4 } else { 0 } });
+        }
+    }
+    v.push(Cfg::Fb { kind: FbKind::Payload, sender: 1, media: 2, fci: Fci::Rpsi { pt: 0, bits: vec![0x5a; 254], overrun: 0 }, padding: 8 });
+    v.push(Cfg::Fb { kind: FbKind::Payload, sender: 1, media: 2, fci: Fci::Rpsi { pt: 64, bits: vec![0xa5; 510], overrun: 3 }, padding: 4 });
+    // ---- unknown / third-party packets with zero padding in non-last positions, empty bodies with padding
+    v.push(Cfg::Unknown { pt: 199, count: 0, data: vec![], padding: 4 });
+    v.push(Cfg::Unknown { pt: 207, count: 31, data: vec![], padding: 252 });
+    v.push(Cfg::Custom { pt: 242, min: 4, count: 0, body: vec![], padding: 8 });
+    // ---- compounds: nested compounds with several members in every position, an empty nested compound after a
+    //      padded member, a third-party / unknown member (padding 0) before others
+    let rr = Cfg::Rr { ssrc: 1, blocks: vec![], padding: 0 };
+    let bye = Cfg::Bye { sources: vec![1], reason: "x".into(), padding: 0 };
+    let byep = Cfg::Bye { sources: vec![], reason: String::new(), padding: 4 };
+    let unk = Cfg::Unknown { pt: 199, count: 1, data: vec![1, 2, 3, 4], padding: 0 };
+    let cus = Cfg::Custom { pt: 207, min: 8, count: 2, body: vec![9, 9, 9, 9], padding: 0 };
+    let inner = Cfg::Compound(vec![unk.clone(), cus.clone()]);
+    v.push(Cfg::Compound(vec![inner.clone()]));
+    v.push(Cfg::Compound(vec![inner.clone(), rr.clone()]));
+    v.push(Cfg::Compound(vec![rr.clone(), inner.clone()]));
+    v.push(Cfg::Compound(vec![rr.clone(), inner.clone(), bye.clone()]));
+    v.push(Cfg::Compound(vec![Cfg::Compound(vec![rr.clone(), bye.clone(), cus.clone()]), Cfg::Compound(vec![unk.clone(), rr.clone()])]));
+    v.push(Cfg::Compound(vec![Cfg::Compound(vec![Cfg::Compound(vec![rr.clone(), bye.clone()]), unk.clone()]), bye.clone()]));
+    v.push(Cfg::Compound(vec![cus.clone(), bye.clone()]));
+    v.push(Cfg::Compound(vec![unk.clone(), cus.clone(), bye.clone()]));
+    v.push(Cfg::Compound(vec![rr.clone(), Cfg::Compound(vec![cus.clone(), bye.clone()]), rr.clone()]));
+    v.push(Cfg::Compound(vec![rr.clone(), byep.clone(), Cfg::Compound(vec![])])); // invalid: padded member followed by an empty compound
+    v.push(Cfg::Compound(vec![rr.clone(), Cfg::Compound(vec![byep.clone(), Cfg::Compound(vec![])])])); // invalid as well
+    v.push(Cfg::Compound(vec![Cfg::Compound(vec![]), rr.clone(), byep.clone()]));
+    v.push(Cfg::Compound(vec![Cfg::Compound(vec![rr.clone(), byep.clone()]), rr.clone()])); // invalid: padding hidden at the tail of a nested compound
+    v.push(Cfg::Compound(vec![rr.clone(), Cfg::Compound(vec![rr.clone(), byep.clone()])]));
+    v
+}
+
 /// One configuration just beyond the 65 536-word limit (262 148 bytes) for every builder kind that can get there.
 pub fn oversize_cfgs() -> Vec<Cfg> {
     let total = 262_148usize;
@@ -136,10 +276,12 @@ pub fn workload(
 ) {
     let mut idx = 0usize;
     let tiny = ctx.scale < 0.5;
+    // construction route forced by the caller (None: rotate with the case index)
+    let force: std::cell::Cell<Option<usize>> = std::cell::Cell::new(None);
     let mut go = |ctx: &mut Ctx, c: &Cfg| {
         idx += 1;
         if idx % nshards == shard && (!tiny || idx % 211 == 0) {
-            f(ctx, c, hows(idx / nshards));
+            f(ctx, c, hows(force.get().unwrap_or(idx / nshards)));
         }
     };
     // 1. padding sweep on every builder kind (+ as the single / last member of a compound)
@@ -203,6 +345,14 @@ pub fn workload(
             }
         }
     }
+    // 2a. relational configurations, each through all four construction routes
+    for c in relational_cfgs() {
+        for h in 0..4 {
+            force.set(Some(h));
+            go(ctx, &c);
+        }
+    }
+    force.set(None);
     // 2b. images larger than 65 535 bytes (skipped in the interpreter / valgrind tiers)
     if !tiny {
         for c in large_cfgs() {
